@@ -901,6 +901,7 @@ def _reach_walk(f, extras=None):
 
 
 @rule("C11", "C11.a.membership-pairing", floor=2)
+@rule("C15", "C15.h.membership-pairing", floor=2)
 def c11a(F, R):
     """in mark_reachable a node is pushed to the function's instruction list iff it is tagged with the function, and the walk follows successor edges from the entry"""
     p = [q for q in F.fns if q.endswith("FunctionMarkupPass::mark_reachable")]
@@ -1832,6 +1833,97 @@ def c01g(F, R):
     else:
         R.bad("load", "rule_value_from_stack copies the slot's word value into the destination of every LoadType: after `sw t0, 0(sp)` with t0 = 0x1234, `lb t1, 0(sp)` is claimed to give 0x1234 (the machine gives 0x34)", f["sp"])
 
+@rule("C01", "C01.u.memory-reads-see-the-state-before-the-node", floor=1)
+def c01u(F, R):
+    """an instruction that reads a tracked location and writes it in the same step (`csrrw`/`csrrwi`: old CSR value into rd, new value into the CSR) receives the value from *before* the step. The rewrite rules of the value pass that copy a memory fact into the destination register are therefore handed `memory_values_in()` - unless the rule only ever applies to loads, which write no memory. Handing it the freshly computed out-state makes `csrrwi a7, uscratch, 10` claim a7 = 10"""
+    from .nodeprops import eval_prop_full, Unx
+    f = _avpass_run(F)
+    body = f["hir"]["value"]
+    lets = {}
+    for st in walk(body, pats=False):
+        if st.get("k") == "Let" and st["pat"].get("k") == "PBinding" and st.get("init") is not None:
+            lets[st["pat"]["name"]] = st["init"]
+    n = 0
+    for c in walk(body, pats=False):
+        if c.get("k") != "Call":
+            continue
+        q = callee_of(c) or ""
+        g = F.fns.get(q)
+        if not g or "hir" not in g or "::analysis::available::" not in q:
+            continue
+        ptys = g.get("param_tys") or []
+        regs_i = [i for i, t in enumerate(ptys) if t.startswith("&mut ") and "AvailableValueMap<riscv_analysis::parser::register::Register>" in t]
+        mem_i = [i for i, t in enumerate(ptys) if t.startswith("&") and not t.startswith("&mut ") and "AvailableValueMap<riscv_analysis::analysis::memory_location::MemoryLocation>" in t]
+        if not regs_i or not mem_i:
+            continue
+        pnames = [p_.get("name") for p_ in g["hir"]["params"]]
+        for mi in mem_i:
+            mp = pnames[mi]
+            gets = [m for m in walk(g["hir"]["value"], pats=False) if m.get("k") == "MethodCall" and m["name"] == "get" and ekey(m["recv"]).lstrip("&*") == mp]
+            if not gets:
+                continue
+            # under which per-node guard does the rule read the map? `if let .. = node.<guard>()`
+            from .p_parse import parent_map
+            pm = parent_map(g["hir"]["value"])
+            guards = set()
+            for m in gets:
+                x = m
+                outer = None
+                while id(x) in pm:
+                    x = pm[id(x)]
+                    if x.get("k") == "If":
+                        cnd = x["cond"]
+                        while cnd.get("k") in ("DropTemps", "Use"):
+                            cnd = cnd["e"]
+                        if cnd.get("k") == "LetExpr":
+                            ini = peel(cnd["init"])
+                            if ini.get("k") == "MethodCall" and not ini["args"] and ekey(ini["recv"]).lstrip("&*") == pnames[0]:
+                                outer = ini["name"]
+                guards.add(outer)
+            # can that guard hold for a node kind that generates a memory fact?
+            writers = []
+            for kind, env in (("Csr", {"inst": "Csrrw", "rd": "X5", "rs1": "X6", "csr": 64}), ("CsrI", {"inst": "Csrrwi", "rd": "X5", "imm": 9, "csr": 64}), ("Store", {"inst": "Sw", "rs1": "X2", "rs2": "X5", "imm": 8})):
+                try:
+                    gm = eval_prop_full(F, "gen_memory_value", kind, env, trait="HasGenValueInfo")
+                except Unx:
+                    gm = "?"
+                if gm == "none":
+                    continue
+                for gd in guards:
+                    if gd is None:
+                        writers.append(kind)
+                        continue
+                    try:
+                        r = eval_prop_full(F, gd, kind, env)
+                    except Unx:
+                        r = "?"
+                    if r != "none" and r is not False:
+                        writers.append(kind)
+            a = peel(c["args"][mi])
+            while a.get("k") == "AddrOf":
+                a = peel(a["e"])
+            cls = None
+            if a.get("k") == "MethodCall" and a["name"] == "memory_values_in":
+                cls = "in"
+            elif a.get("k") == "MethodCall" and a["name"] == "memory_values_out":
+                cls = "previous-out"
+            elif a.get("k") == "Path" and a.get("res_kind") == "Local":
+                cls = "local `" + a["res"] + "`"
+                init = lets.get(a["res"])
+                muts = [x for x in walk(body, pats=False) if x.get("k") == "MethodCall" and x["name"] in ("insert", "forget_values_reading", "extend") and ekey(x["recv"]).lstrip("&*") == a["res"]]
+                if init is not None and not muts and peel(init).get("k") == "MethodCall" and peel(init)["name"] == "memory_values_in":
+                    cls = "in"
+            n += 1
+            key = f"{short(q)}|{mp}"
+            if not writers:
+                R.ok(key, detail=f"{short(q)} reads `{mp}` only for nodes that write no memory (guard {sorted(x or '-' for x in guards)}): any state will do", where=loc(c))
+            elif cls == "in":
+                R.ok(key, detail=f"{short(q)} can apply to {sorted(set(writers))} nodes and is given the memory state before the node", where=loc(c))
+            else:
+                R.bad(key, f"{short(q)} copies a memory fact into the destination register, also for {sorted(set(writers))} nodes - which overwrite the location they read - and is given {cls}, not `memory_values_in()`: with uscratch = 1, `csrrwi a7, uscratch, 10` is claimed to leave a7 = 10 (the machine: 1), and the next `ecall` is taken for an exit", loc(c))
+    if n == 0:
+        raise Anchor("no rewrite rule of the value pass takes the register map and a memory map")
+
 
 @rule("C01", "C01.h.kill-reaches-values", floor=1)
 def c01h(F, R):
@@ -1887,6 +1979,8 @@ def c01h(F, R):
 
 
 @rule("C16", "C16.d.label-transfers-are-edges-or-calls", floor=4)
+@rule("C01", "C01.t.label-transfers-are-edges-or-calls", floor=4)
+@rule("C02", "C02.o.label-transfers-are-edges-or-calls", floor=4)
 @rule("C03", "C03.e.label-transfers-are-edges-or-calls", floor=4)
 def c03e(F, R):
     """every instruction that transfers control to a label is seen either as a call (calls_to) or as a jump (jumps_to), for every link register: `jal rd, L` with rd = x0, ra or any other register, and every branch; NodeDirectionPass draws its label edges from jumps_to()"""
